@@ -6,6 +6,7 @@ from __future__ import annotations
 from mon import refmodel as rm
 from mon.fnlib import basic as fl
 from mon.fnlib import trans as tr
+from mon.fnlib import trans_b as tb
 
 # (function, argument kinds): p = parameter, v = variable, t = time, a = any value (variable or derived)
 RATE_TABLE = [
@@ -15,7 +16,7 @@ RATE_TABLE = [
 
 
 def gen(rng, *, ia: bool = True, time: bool = True, conditionals: bool = True, computed_dynamic: bool = True,  # noqa: ANN001
-        untouched: bool = True, max_vars: int = 5, untranslatable: bool = False) -> dict:
+        untouched: bool = True, max_vars: int = 5, untranslatable: bool = False, module_state: float = 0.0) -> dict:
     L = fl.ref
     nvar = rng.randint(1, max_vars)
     variables = [f"x{i}" for i in range(nvar)]
@@ -97,6 +98,13 @@ def gen(rng, *, ia: bool = True, time: bool = True, conditionals: bool = True, c
                 feats.add("state_dependent_coefficient")
             touched.add(v)
         comps.append({"kind": "reaction", "name": f"v{j}", "fn": L(fn), "args": args, "stoich": st})
+    if module_state and not untranslatable and rng.random() < module_state:
+        # rate laws that read a module-level constant / a class attribute of their module (see module_state_rebound)
+        a = rng.choice(variables)
+        comps.append({"kind": "reaction", "name": "vms", "fn": L(tb.t_modconst), "args": [a, rng.choice(params)], "stoich": {a: -1.0}})
+        comps.append({"kind": "derived", "name": "dma", "fn": L(tb.t_modattr), "args": [rng.choice(variables), rng.choice(params)]})
+        touched.add(a)
+        feats.add("module_state")
     if len(touched) < nvar:
         feats.add("untouched_variable")
     if nvar == 1:
@@ -108,3 +116,20 @@ def gen(rng, *, ia: bool = True, time: bool = True, conditionals: bool = True, c
     if "d1" in order and order.index("d1") < order.index("d0"):
         feats.add("dependent_declared_first")
     return {"spec": spec, "features": sorted(feats)}
+
+
+import contextlib
+
+
+@contextlib.contextmanager
+def module_state_rebound(rng, first_use):  # noqa: ANN001, ANN201
+    """The functions of a 'module_state' model read tb.KSAT and tb.Settings.gain. `first_use()` translates the model once
+    (errors ignored); then the two values are re-bound, as when a script cell is re-run; inside the block the caller
+    translates again and compares with the model, which follows the new values at once. Restored on exit."""
+    try:
+        with contextlib.suppress(Exception):
+            first_use()
+        tb.KSAT, tb.Settings.gain = round(rng.uniform(0.5, 3.0), 3), round(rng.uniform(0.5, 3.0), 3)
+        yield
+    finally:
+        tb.KSAT, tb.Settings.gain = 1.75, 2.0
